@@ -2,6 +2,7 @@ package world
 
 import (
 	"crypto/rand"
+	"crypto/sha256"
 	"crypto/x509"
 	"crypto/x509/pkix"
 	"encoding/asn1"
@@ -169,6 +170,8 @@ type CRLSpec struct {
 	// AuthorityKeyID, when set, is the key identifier the CRL names as its authority (by default the issuer's own
 	// subject key identifier): an identifier is a hint, the CRL is whose key signed it.
 	AuthorityKeyID []byte
+	// Exts are further extensions of the CRL itself (issuing distribution point, freshest CRL, private ones ...).
+	Exts []pkix.Extension
 }
 
 // MakeCRL builds a DER CRL.
@@ -213,7 +216,7 @@ func MakeCRL(s CRLSpec) []byte {
 	}
 	der, err := x509.CreateRevocationList(rand.Reader, &x509.RevocationList{
 		SignatureAlgorithm: x509.ECDSAWithSHA256, RevokedCertificates: rev, Number: big.NewInt(num),
-		ThisUpdate: tu, NextUpdate: nu}, issuer, s.Signer)
+		ThisUpdate: tu, NextUpdate: nu, ExtraExtensions: s.Exts}, issuer, s.Signer)
 	if err != nil {
 		panic(fmt.Sprintf("harness: CreateRevocationList: %v", err))
 	}
@@ -353,4 +356,44 @@ func (g *RecyclingGetter) Get(u string) (map[string][]string, []byte, error) {
 	}
 	n := copy(g.buf, b)
 	return h, g.buf[:n:n], nil
+}
+
+// RedateCRL rewrites the nextUpdate of a DER CRL (which must carry thisUpdate and nextUpdate as UTCTime) to the given
+// UTCTime text "YYMMDDhhmmssZ" and signs the result again with signer: x509.CreateRevocationList refuses a nextUpdate
+// before thisUpdate, an issuer's tool or an attacker holding an old list does not.
+func RedateCRL(der []byte, signer *Key, nextUpdateUTC string) []byte {
+	var outer struct {
+		TBS asn1.RawValue
+		Alg pkix.AlgorithmIdentifier
+		Sig asn1.BitString
+	}
+	if _, err := asn1.Unmarshal(der, &outer); err != nil || len(nextUpdateUTC) != 13 {
+		panic("harness: RedateCRL: cannot parse the CRL")
+	}
+	tbs := append([]byte(nil), outer.TBS.FullBytes...)
+	seen := 0
+	for i := 0; i+15 <= len(tbs); i++ {
+		if tbs[i] == 0x17 && tbs[i+1] == 0x0d && tbs[i+14] == 'Z' {
+			seen++
+			if seen == 2 {
+				copy(tbs[i+2:i+15], nextUpdateUTC)
+				break
+			}
+			i += 14
+		}
+	}
+	if seen != 2 {
+		panic("harness: RedateCRL: no second UTCTime")
+	}
+	digest := sha256.Sum256(tbs)
+	sig, _ := signer.Sign(nil, digest[:], nil)
+	out, err := asn1.Marshal(struct {
+		TBS asn1.RawValue
+		Alg pkix.AlgorithmIdentifier
+		Sig asn1.BitString
+	}{asn1.RawValue{FullBytes: tbs}, outer.Alg, asn1.BitString{Bytes: sig, BitLength: 8 * len(sig)}})
+	if err != nil {
+		panic("harness: RedateCRL: " + err.Error())
+	}
+	return out
 }
